@@ -185,5 +185,250 @@ def regenerate(repo=None):
     return info
 
 
+# ====================================================================================================
+# dashu-ratio and dashu-float: the same mechanism (macro-expanded crate -> every operator-trait impl ->
+# one UFCS call per impl, grouped by operation).  The header scan below is bracket-aware because these
+# crates write multi-line generic headers (`impl<'l, 'r, R: Round, const B: Word> Add<&'r FBig<R, B>>
+# for &'l FBig<R, B>`) and `impl Add for RBig` (Rhs = Self).
+# ====================================================================================================
+
+def parse_impls(src):
+    """all `impl [<generics>] Trait[<Args>] for Type` headers of a source text: [(trait, args|None, type)]"""
+    res = []
+    for m in re.finditer(r'(?<![A-Za-z0-9_])impl(?![A-Za-z0-9_])', src):
+        j = m.end()
+        while j < len(src) and src[j].isspace():
+            j += 1
+        if j < len(src) and src[j] == '<':
+            d = 0
+            while j < len(src):
+                c = src[j]
+                if c == '<':
+                    d += 1
+                elif c == '>' and src[j - 1] != '-':
+                    d -= 1
+                    if d == 0:
+                        j += 1
+                        break
+                j += 1
+        k = src.find('{', j)
+        if k < 0:
+            continue
+        hdr = re.sub(r'\s+', ' ', src[j:k]).strip()
+        if ' for ' not in hdr or '$' in hdr or ';' in hdr or '!' in hdr:
+            continue
+        w = hdr.split(' where ')[0]
+        tr, ty = w.split(' for ', 1)
+        mm = re.match(r'(?:[A-Za-z_]+::)*([A-Za-z]+)(?:\s*<(.*)>)?$', tr.strip())
+        if not mm:
+            continue
+        res.append((mm.group(1), mm.group(2), ty.strip()))
+    return res
+
+
+def norm2(t):
+    t = re.sub(r"'[a-z_]+\s*", "", t.strip())
+    t = re.sub(r"(?:[a-z_]+::)+", "", t)          # crate::rbig::RBig -> RBig
+    return re.sub(r"\s+", "", t)
+
+
+RTRAITS = {k: v for k, v in TRAITS.items() if k in (
+    "Add", "Sub", "Mul", "Div", "Rem", "AddAssign", "SubAssign", "MulAssign", "DivAssign", "RemAssign",
+    "DivEuclid", "RemEuclid", "DivRemEuclid", "Shl", "Shr", "ShlAssign", "ShrAssign")}
+
+
+def collect2(src, kind_of):
+    """[(trait, lhs, rhs)] with Rhs = Self resolved; only impls whose operand types `kind_of` knows"""
+    impls, skipped, seen = [], {}, set()
+    for trait, arg, ty in parse_impls(src):
+        if trait not in RTRAITS:
+            continue
+        lhs = norm2(ty)
+        rhs = norm2(arg) if arg else "Self"
+        rhs = rhs.replace("Self", lhs.lstrip("&")) if "Self" in rhs else rhs
+        if kind_of(lhs) is None or kind_of(rhs) is None:
+            skipped["%s<%s> for %s" % (trait, rhs, lhs)] = 1
+            continue
+        key = (trait, lhs, rhs)
+        if key not in seen:
+            seen.add(key)
+            impls.append(key)
+    return impls, skipped
+
+
+def _call(trait, lhs_t, rhs_t, e1, e2):
+    _, method, shape = TRAITS[trait]
+    ufcs = "<%s as %s<%s>>::%s" % (lhs_t, TRAIT_PATH[trait], rhs_t, method)
+    if shape == "bin":
+        return "show(&%s(%s, %s))" % (ufcs, e1, e2)
+    if shape == "assign":
+        return "{ let mut x = %s; %s(&mut x, %s); show(&x) }" % (e1, ufcs, e2)
+    return "{ let mut x = %s; let r = %s(&mut x, %s); show(&(x, r)) }" % (e1, ufcs, e2)
+
+
+# ---------------------------------------------------------------------------------------------------- ratio
+
+def ratio_kind(t):
+    b = t.lstrip("&")
+    return {"RBig": "R", "Relaxed": "X", "UBig": "U", "IBig": "I"}.get(b)
+
+
+def ratio_operand(t, side):
+    ref = "&" if t.startswith("&") else ""
+    b = t.lstrip("&")
+    if b == "RBig":
+        return ("true", "%sv.r%s.clone()" % (ref, side))
+    if b == "Relaxed":
+        return ("true", "%sv.x%s.clone()" % (ref, side))
+    if b == "UBig":
+        return ("v.u%s.is_some()" % side, "%sv.u%s.clone().unwrap()" % (ref, side))
+    return ("v.i%s.is_some()" % side, "%sv.i%s.clone().unwrap()" % (ref, side))
+
+
+def gen_ratio_rs(impls):
+    groups = {}
+    for trait, lhs, rhs in impls:
+        ks = {ratio_kind(lhs), ratio_kind(rhs)}
+        q = "X" if "X" in ks else "R"
+        if "R" in ks and "X" in ks:
+            continue
+        groups.setdefault((TRAITS[trait][0], q), []).append((trait, lhs, rhs))
+    out = ["// GENERATED by vlib/forms.py from the macro-expanded dashu-ratio — do not edit.",
+           "#![allow(unused_mut, unused_variables, clippy::all)]",
+           "use super::forms_rt2::*;", "use dashu_int::{IBig, UBig};", "use dashu_ratio::{RBig, Relaxed};", "",
+           "pub fn run_group(fam: &str, q: &str, v: &RVals, out: &mut Vec<(String, String)>) -> bool {",
+           "    match (fam, q) {"]
+    for (fam, q), members in sorted(groups.items()):
+        out.append('        ("%s", "%s") => {' % (fam, q))
+        for trait, lhs, rhs in sorted(members):
+            g1, e1 = ratio_operand(lhs, "a")
+            g2, e2 = ratio_operand(rhs, "b")
+            name = "%s<%s> for %s" % (trait, rhs, lhs)
+            out.append('            if %s && %s { out.push(("%s".to_string(), run1(|| %s))); }'
+                       % (g1, g2, name, _call(trait, lhs, rhs, e1, e2)))
+        out.append("            true")
+        out.append("        }")
+    out += ["        _ => false,", "    }", "}", "", "pub const GROUPS: &[(&str, &str, usize)] = &["]
+    for (fam, q), members in sorted(groups.items()):
+        out.append('    ("%s", "%s", %d),' % (fam, q, len(members)))
+    out.append("];")
+    return "\n".join(out) + "\n", groups
+
+
+# ---------------------------------------------------------------------------------------------------- float
+
+FLOAT_INST = {"z2": "FBig<dashu_float::round::mode::Zero, 2>", "h10": "FBig<dashu_float::round::mode::HalfAway, 10>"}
+
+
+def float_kind(t):
+    b = t.lstrip("&")
+    if b == "FBig<R,B>":
+        return "F"
+    if b in ("UBig", "IBig") or b in PRIMS:
+        return "N"
+    return None
+
+
+def float_operand(t, side, inst):
+    ref = "&" if t.startswith("&") else ""
+    b = t.lstrip("&")
+    if b == "FBig<R,B>":
+        return ("true", "%sv.f%s.clone()" % (ref, side))
+    if b == "UBig":
+        return ("v.u%s.is_some()" % side, "%sv.u%s.clone().unwrap()" % (ref, side))
+    if b == "IBig":
+        return ("v.i%s.is_some()" % side, "%sv.i%s.clone().unwrap()" % (ref, side))
+    return ("v.prim_%s::<%s>().is_some()" % (side, b), "%sv.prim_%s::<%s>().unwrap()" % (ref, side, b))
+
+
+def gen_float_rs(impls):
+    groups = {}
+    for trait, lhs, rhs in impls:
+        fam = TRAITS[trait][0]
+        lk, rk = float_kind(lhs), float_kind(rhs)
+        if fam in ("shl", "shr"):
+            shape = "FS"
+        else:
+            shape = lk + rk
+            if shape == "NN":
+                continue
+        groups.setdefault((fam, shape), []).append((trait, lhs, rhs))
+    out = ["// GENERATED by vlib/forms.py from the macro-expanded dashu-float — do not edit.",
+           "// Every impl is generic in <R: Round, const B: Word>; it is instantiated at two (mode, base) pairs.",
+           "#![allow(unused_mut, unused_variables, clippy::all)]",
+           "use super::forms_rt2::*;", "use dashu_int::{IBig, UBig};", "use dashu_float::FBig;", ""]
+    for inst, ty in FLOAT_INST.items():
+        out.append("pub fn run_group_%s(fam: &str, shape: &str, v: &FVals<%s>, out: &mut Vec<(String, String)>) -> bool {" % (inst, ty))
+        out.append("    match (fam, shape) {")
+        for (fam, shape), members in sorted(groups.items()):
+            out.append('        ("%s", "%s") => {' % (fam, shape))
+            if shape in ("FN", "NF"):
+                # the reference form: the integer converted by FBig::from, then the FBig x FBig operator
+                tr0 = {"add": "Add", "sub": "Sub", "mul": "Mul", "div": "Div", "rem": "Rem"}.get(fam)
+                if tr0:
+                    e1 = "v.fa.clone()" if shape == "FN" else "v.fa_int.clone().unwrap()"
+                    e2 = "v.fb_int.clone().unwrap()" if shape == "FN" else "v.fb.clone()"
+                    g = "v.fb_int.is_some()" if shape == "FN" else "v.fa_int.is_some()"
+                    out.append('            if %s { out.push(("%s<FBig> for FBig on FBig::from(int)".to_string(), run1(|| %s))); }'
+                               % (g, tr0, _call(tr0, ty, ty, e1, e2)))
+            if shape == "FF" and fam in ("add", "sub", "mul", "div", "rem"):
+                # the Context-method form at the precision the operator uses (Context::max of the operands);
+                # an inherent method, so it is not found by the impl scan — added by name
+                out.append('            out.push(("Context::%s(&Repr, &Repr) at Context::max".to_string(), run1(|| '
+                           'show(&dashu_float::Context::max(v.fa.context(), v.fb.context()).%s(v.fa.repr(), v.fb.repr()).value()))));'
+                           % (fam, fam))
+            for trait, lhs, rhs in sorted(members):
+                g1, e1 = float_operand(lhs, "a", inst)
+                g2, e2 = float_operand(rhs, "b", inst)
+                if fam in ("shl", "shr"):
+                    g2, e2 = "true", "v.shift"
+                name = "%s<%s> for %s" % (trait, rhs, lhs)
+                l_t = lhs.replace("FBig<R,B>", ty)
+                r_t = rhs.replace("FBig<R,B>", ty)
+                out.append('            if %s && %s { out.push(("%s".to_string(), run1(|| %s))); }'
+                           % (g1, g2, name, _call(trait, l_t, r_t, e1, e2)))
+            out.append("            true")
+            out.append("        }")
+        out += ["        _ => false,", "    }", "}", ""]
+    out.append("pub const GROUPS: &[(&str, &str, usize)] = &[")
+    for (fam, shape), members in sorted(groups.items()):
+        out.append('    ("%s", "%s", %d),' % (fam, shape, len(members)))
+    out.append("];")
+    return "\n".join(out) + "\n", groups
+
+
+def _write(path, text):
+    old = open(path).read() if os.path.exists(path) else None
+    if old != text:
+        with open(path + ".tmp", "w") as f:
+            f.write(text)
+        os.replace(path + ".tmp", path)
+    return old != text
+
+
+def regenerate_more(repo=None):
+    """tables for dashu-ratio and dashu-float"""
+    gdir = os.path.dirname(OUT_RS)
+    info = {}
+    src = expand(repo, "dashu-ratio")
+    impls, skipped = collect2(src, ratio_kind)
+    text, groups = gen_ratio_rs(impls)
+    ch = _write(os.path.join(gdir, "forms_ratio.rs"), text)
+    info["ratio"] = {"impls_covered": sum(len(v) for v in groups.values()), "groups": len(groups),
+                     "skipped_other_operand_types": sorted(skipped), "changed": ch,
+                     "group_sizes": {"%s:%s" % k: len(v) for k, v in sorted(groups.items())}}
+    src = expand(repo, "dashu-float")
+    impls, skipped = collect2(src, float_kind)
+    text, groups = gen_float_rs(impls)
+    ch = _write(os.path.join(gdir, "forms_float.rs"), text)
+    info["float"] = {"impls_covered": sum(len(v) for v in groups.values()), "groups": len(groups),
+                     "instantiations": FLOAT_INST, "skipped_other_operand_types": sorted(skipped), "changed": ch,
+                     "group_sizes": {"%s:%s" % k: len(v) for k, v in sorted(groups.items())}}
+    with open(os.path.join(gdir, "forms_more.json"), "w") as f:
+        json.dump(info, f, indent=1)
+    return info
+
+
 if __name__ == "__main__":
     print(json.dumps(regenerate(), indent=1))
+    print(json.dumps(regenerate_more(), indent=1))
